@@ -26,6 +26,7 @@ type ChainCfg struct {
 	Alter        string // C01 alteration ("" = none)
 	Prime        bool   // C01: verify the authentic layout first, in the same process
 	ShortPct     int    // chance (percent) that a step gets one honest link too few (default 8)
+	SurplusPct   int    // chance (percent) that a step gets one honest link more than its threshold
 	Expiry       string // "" = far future
 	Inspections  []string
 	DirEdit      string // "", "add", "remove", "modify"
@@ -225,6 +226,11 @@ func (g *chainGen) buildLevel(depth int, initial Files, signers []*TestKey, name
 		honest := threshold
 		if honest < 1 {
 			honest = rng.Intn(2)
+		}
+		if cfg.SurplusPct > 0 && honest < nf && rng.Chance(cfg.SurplusPct) {
+			// more honest evidence than the threshold asks for: a defect in one piece must still count
+			honest++
+			lv.Feat = append(lv.Feat, "surplus")
 		}
 		if honest > nf {
 			honest = nf
